@@ -153,22 +153,26 @@ static void ref_site() {
   if (long_form) V_ASSERT(!d.is_short, "long form option is honoured");
   uint64_t end_ip = kPos + emitted;
 
-  if (MODE == kBoundHere) {
-    V_ASSERT(c->_unresolved_fixup_count == 0 && c->_fixups == nullptr, "bound target in this section needs no fixup");
+  // (the 32-bit absolute form handles a label bound to any section directly: the relocation records the target section)
+  if (MODE == kBoundHere || (FORM == kMovAbs32 && MODE == kOtherSection)) {
+    V_ASSERT(c->_unresolved_fixup_count == 0 && c->_fixups == nullptr, "bound target needs no fixup");
     if (FORM == kMovAbs32) {
       // 32-bit absolute form: a relocation carries the address; finish with relocate_to_base
+      constexpr uint32_t tsec = MODE == kOtherSection ? 1 : 0;
       V_CONCRETIZE(c->_relocations._size, 1u, "32-bit absolute reference records one relocation");
       V_CONCRETIZE(reloc_tab[0], reinterpret_cast<RelocEntry*>(arena_bytes), "the relocation entry is the first arena object");
       V_CONCRETIZE(reloc_tab[0]->_reloc_type, RelocType::kRelToAbs, "32-bit absolute reference records a RelToAbs relocation");
-      uint64_t s0 = nondet_u32(); sec(0)->_offset = s0; uint64_t base = nondet_u32();
+      V_CONCRETIZE(reloc_tab[0]->_target_section_id, tsec, "the relocation records the section the label is bound to");
+      V_CONCRETIZE(reloc_tab[0]->_source_section_id, 0u, "the relocation records the emitting section");
+      sec(0)->_offset = nondet_u32(); sec(1)->_offset = nondet_u32(); uint64_t base = nondet_u32();
       Error rerr = c->relocate_to_base(base, nullptr);
-      uint64_t want = base + s0 + lo + addend;
+      uint64_t want = base + sec(tsec)->_offset + lo + addend;
       if (rerr == Error::kOk) { V_ASSERT(uint64_t(load_le(b + 2, 4)) == want, "32-bit absolute reference holds base plus section offset plus label offset plus addend"); V_WITNESS("ref-abs32-bound"); }
       else V_ASSERT(want > 0xFFFFFFFFull, "32-bit absolute reference is refused only when the address does not fit 32 bits");
       return;
     }
     V_ASSERT(end_ip + uint64_t(d.rel) == lo + addend, "bound target: end of instruction plus displacement is label position plus addend");
-    if (d.is_short) V_WITNESS("ref-bound-short"); else V_WITNESS("ref-bound-long");
+    if (d.is_short) V_WITNESS("ref-bound-short"); else if (FORM != kJecxz && FORM != kLoop) V_WITNESS("ref-bound-long");
     return;
   }
 
